@@ -52,10 +52,12 @@ class RefScripted:
         return 0
 
     def apply(self, dt, k, power):
-        if k < len(self.factors):
+        if power < 1.0:
+            fac = self.dr
+        elif k < len(self.factors):
             fac = self.factors[k]
         else:
-            fac = self.da if power >= 1.0 else self.dr
+            fac = self.da
         return fac * dt, k + 1
 
 
